@@ -1,7 +1,9 @@
 #!/bin/bash
-# Run once after a fresh restore, offline.  Builds caches the checks would otherwise build lazily
-# and runs the harness self-tests.  Every step is idempotent; nothing is fetched.
+# Run once after a fresh restore, offline.  Builds the parse caches the checks would otherwise
+# build lazily and runs the harness self-tests.  Idempotent; nothing is fetched.
 cd /verif || exit 1
 mkdir -p evidence replays .cache
+export PYTHONPATH=/repo:/verif PYTHONDONTWRITEBYTECODE=1 PYTHONHASHSEED=0
+(cd /repo && /venv/bin/python /verif/tools/warm.py) 2>&1 | grep -v -i conda
 if [ -x ./tools/selftest.sh ]; then ./tools/selftest.sh || exit 1; fi
 exit 0
